@@ -28,12 +28,16 @@ CLASSES = [
     ("KTuple", "pypika.terms", "Tuple"), ("KArray", "pypika.terms", "Array"), ("KNested", "pypika.terms", "NestedCriterion"),
     ("KAgg", "pypika.terms", "AggregateFunction"), ("KAnalytic", "pypika.terms", "AnalyticFunction"),
     ("KExtract", "pypika.functions", "Extract"), ("KExists", "pypika.terms", "ExistsCriterion"),
+    ("KAtTz", "pypika.terms", "AtTimezone"), ("KSetOp", "pypika.queries", "_SetOperation"),
     ("KQuery", "pypika.queries", "QueryBuilder"), ("KClickHouse", "pypika.dialects", "ClickHouseQueryBuilder"),
+    ("KPostgres", "pypika.dialects", "PostgreSQLQueryBuilder"), ("KMySQL", "pypika.dialects", "MySQLQueryBuilder"),
     ("KJoin", "pypika.queries", "Join"), ("KJoinOn", "pypika.queries", "JoinOn"), ("KJoinUsing", "pypika.queries", "JoinUsing"),
 ]
 
 # the child slots of each class that hold tables / terms: the SPECIFICATION side (subst_table visits all of them).
 # `_cases` is split into its two components.
+QSLOTS = ["_from", "_insert_table", "_update_table", "_with", "_selects", "_columns", "_values", "_wheres", "_prewheres",
+          "_groupbys", "_havings", "_orderbys", "_joins", "_updates", "_select_star_tables"]
 SLOTS = {
     "KField": ["table"], "KStar": ["table"], "KValue": ["value"], "KLiteral": [], "KParam": [], "KNeg": ["term"],
     "KArith": ["left", "right"], "KBasic": ["left", "right"], "KCplx": ["left", "right"], "KIn": ["term", "container"],
@@ -42,21 +46,22 @@ SLOTS = {
     "KCase": ["_cases_crit", "_cases_term", "_else"], "KFunc": ["args"], "KTuple": ["values"], "KArray": ["values"],
     "KNested": ["left", "right", "nested"], "KAgg": ["args", "_filters"],
     "KAnalytic": ["args", "_filters", "_partition", "_orderbys"], "KExtract": ["field"], "KExists": ["container"],
-    "KQuery": ["_from", "_insert_table", "_update_table", "_with", "_selects", "_columns", "_values", "_wheres", "_prewheres",
-               "_groupbys", "_havings", "_orderbys", "_joins", "_updates", "_select_star_tables"],
-    "KClickHouse": ["_from", "_insert_table", "_update_table", "_with", "_selects", "_columns", "_values", "_wheres",
-                    "_prewheres", "_groupbys", "_havings", "_orderbys", "_joins", "_updates", "_select_star_tables",
-                    "_limit_by"],
+    "KAtTz": ["field"], "KSetOp": ["base_query", "_set_operation", "_orderbys"],
+    "KQuery": list(QSLOTS), "KClickHouse": QSLOTS + ["_limit_by", "_distinct_on"],
+    "KPostgres": QSLOTS + ["_distinct_on", "_returns", "_using", "_on_conflict_fields", "_on_conflict_do_updates",
+                           "_on_conflict_wheres", "_on_conflict_do_update_wheres"],
+    "KMySQL": QSLOTS + ["_duplicate_updates"],
     "KJoin": ["item"], "KJoinOn": ["item", "criterion"], "KJoinUsing": ["item", "fields"],
 }
 # attributes that hold nodes but are deliberately outside the model (with the reason)
 IGNORED = {
     "KBitAnd": {"value": "a ValueWrapper around a number: no table below it"},
     "KExtract": {"args": "inherited from Function; the constructor only ever puts the date-part literal there"},
-    "KQuery": {"_using": "PostgreSQL DELETE..USING tables (python-only oracle family)", "_force_indexes": "Index terms: no table",
+    "KQuery": {"_using": "only PostgreSQLQueryBuilder fills it (slot of KPostgres)", "_force_indexes": "Index terms: no table",
                "_use_indexes": "Index terms: no table", "_unions": "unused attribute"},
-    "KClickHouse": {"_using": "see KQuery", "_force_indexes": "no table", "_use_indexes": "no table", "_unions": "unused",
-                    "_distinct_on": "python-only oracle family"},
+    "KClickHouse": {"_using": "see KQuery", "_force_indexes": "no table", "_use_indexes": "no table", "_unions": "unused"},
+    "KPostgres": {"_force_indexes": "no table", "_use_indexes": "no table", "_unions": "unused"},
+    "KMySQL": {"_using": "see KQuery", "_force_indexes": "no table", "_use_indexes": "no table", "_unions": "unused"},
 }
 ALL_SLOTS = []
 for _k, _m, _c in CLASSES:
@@ -91,6 +96,9 @@ def _module_ast(path):
     return _AST_CACHE[real]
 
 
+SHADOWED = []
+
+
 def owner_of(cls):
     for k in cls.__mro__:
         if "replace_table" in k.__dict__:
@@ -102,9 +110,12 @@ def method_ast(owner):
     tree = _module_ast(inspect.getsourcefile(owner))
     for node in ast.walk(tree):
         if isinstance(node, ast.ClassDef) and node.name == owner.__name__:
-            for it in node.body:
-                if isinstance(it, ast.FunctionDef) and it.name == "replace_table":
-                    return it
+            defs = [it for it in node.body if isinstance(it, ast.FunctionDef) and it.name == "replace_table"]
+            if defs:
+                if len(defs) > 1:
+                    SHADOWED.append("%s defines replace_table %d times (lines %s); Python keeps the LAST one"
+                                    % (owner.__name__, len(defs), ", ".join(str(d.lineno) for d in defs)))
+                return defs[-1]          # a later definition in the same class body shadows the earlier ones
     raise ExtractError("no replace_table FunctionDef found in class %s" % owner.__name__)
 
 
@@ -221,6 +232,41 @@ def _stmt_effect(m, st):
             if ok1 and ok2:
                 MODES[(owner, attr)] = "cmp_enter"
                 return [attr]
+        # if self.X: <body>      /      if isinstance(self.X, Term): self.X = self.X.replace_table(cur, new)
+        gattr = _self_attr(t)
+        if gattr is None and m.is_term_test(t, ast.Attribute(value=ast.Name(id="self", ctx=ast.Load()),
+                                                              attr=(t.args[0].attr if isinstance(t, ast.Call) and t.args and isinstance(t.args[0], ast.Attribute) else "?"),
+                                                              ctx=ast.Load())):
+            gattr = t.args[0].attr
+        if gattr is not None and not st.orelse:
+            me_ = ast.Attribute(value=ast.Name(id="self", ctx=ast.Load()), attr=gattr, ctx=ast.Load())
+
+            def sub(n, i):
+                return (isinstance(n, ast.Subscript) and _same(n.value, me_) and isinstance(n.slice, ast.Constant)
+                        and n.slice.value == i)
+
+            def lc_over(lc, it_ok):
+                g_ = _one_gen(lc) if isinstance(lc, ast.ListComp) else None
+                r_ = m.rt_call(lc.elt) if g_ is not None else None
+                return g_ is not None and isinstance(g_.target, ast.Name) and r_ is not None and _same(r_, g_.target) and it_ok(g_.iter)
+            b = st.body
+            if len(b) == 1 and isinstance(b[0], ast.Assign) and len(b[0].targets) == 1 and _same(b[0].targets[0], me_):
+                v_ = b[0].value
+                r_ = m.rt_call(v_)
+                if r_ is not None and _same(r_, me_):                       # self.X = self.X.replace_table(..)
+                    MODES[(owner, gattr)] = "call"
+                    return [gattr]
+                if isinstance(v_, ast.Tuple) and len(v_.elts) == 3 and sub(v_.elts[0], 0) and sub(v_.elts[1], 1) \
+                        and lc_over(v_.elts[2], lambda it: sub(it, 2)):     # (self.X[0], self.X[1], [c.rt for c in self.X[2]])
+                    return [gattr]
+            if len(b) == 2 and all(isinstance(x, ast.Assign) and len(x.targets) == 1 for x in b) \
+                    and isinstance(b[0].targets[0], ast.Tuple) and len(b[0].targets[0].elts) == 3 \
+                    and all(isinstance(x, ast.Name) for x in b[0].targets[0].elts) and _same(b[0].value, me_) \
+                    and _same(b[1].targets[0], me_) and isinstance(b[1].value, ast.Tuple) and len(b[1].value.elts) == 3:
+                n0, n1, n2 = b[0].targets[0].elts                           # n, offset, by = self.X; self.X = (n, offset, [t.rt for t in by])
+                e0, e1, e2 = b[1].value.elts
+                if _same(e0, n0) and _same(e1, n1) and lc_over(e2, lambda it: _same(it, n2)):
+                    return [gattr]
         raise ExtractError("%s: unrecognised if-statement: %s" % (w, ast.unparse(st)[:200]))
     if not (isinstance(st, ast.Assign) and len(st.targets) == 1):
         raise ExtractError("%s: unrecognised statement: %s" % (w, ast.unparse(st)[:200]))
@@ -260,6 +306,9 @@ def _stmt_effect(m, st):
                 return [attr]
             if m.select_if_eq(e, x):                               # [new if x == cur else x for x in self.X]
                 MODES[(owner, attr)] = "cmp"
+                return [attr]
+            if m.enter_if_term(e, x):          # [x.replace_table(..) if isinstance(x, Term) else x for x in self.X]
+                MODES[(owner, attr)] = "call"
                 return [attr]
             if m.select_if_eq_enter(e, x):     # [new if x == cur else (x.replace_table(..) if isinstance(x, Term) else x) ..]
                 MODES[(owner, attr)] = "cmp_enter"
@@ -304,21 +353,18 @@ def _stmt_effect(m, st):
             hit_ = []
             for comp, var in zip(e.elts, g.target.elts):
                 r = m.rt_call(comp)
-                if r is not None and _same(r, var):
-                    hit_.append(True)
+                if (r is not None and _same(r, var)) or m.enter_if_term(comp, var):
+                    hit_.append(True)              # x.replace_table(..)   or   x.replace_table(..) if isinstance(x, Term) else x
                 elif _same(comp, var):
                     hit_.append(False)                             # component copied unchanged: not visited
                 else:
                     raise ExtractError("%s: unrecognised pair component: %s" % (w, ast.unparse(st)[:200]))
             if attr == "_cases":
                 return [attr + tag for tag, h in zip(("_crit", "_term"), hit_) if h]
-            if attr == "_orderbys":
-                if hit_ == [True, False]:
-                    return [attr]
-                if hit_ == [False, False]:
-                    return []
-            if attr == "_updates":
-                if hit_ == [True, True]:
+            want = {"_orderbys": [True, False], "_updates": [True, True], "_duplicate_updates": [True, True],
+                    "_on_conflict_do_updates": [True, True], "_set_operation": [False, True]}.get(attr)
+            if want is not None:
+                if hit_ == want:
                     return [attr]
                 if hit_ == [False, False]:
                     return []
@@ -371,27 +417,16 @@ def static_visited(cls):
             if not (rest and isinstance(rest[-1], ast.Return) and isinstance(rest[-1].value, ast.Name)
                     and rest[-1].value.id == nv):
                 raise ExtractError("%s: does not return the copy" % where)
+
+            class _Ren(ast.NodeTransformer):
+                def visit_Name(self, n):
+                    return ast.copy_location(ast.Name(id="self", ctx=n.ctx), n) if n.id == nv else n
             for st in rest[:-1]:
-                ok = False
-                if isinstance(st, ast.If) and not st.orelse and len(st.body) == 1 and _self_attr(st.test):
-                    attr = _self_attr(st.test)
-                    a = st.body[0]
-                    if (isinstance(a, ast.Assign) and len(a.targets) == 1 and isinstance(a.targets[0], ast.Attribute)
-                            and isinstance(a.targets[0].value, ast.Name) and a.targets[0].value.id == nv
-                            and a.targets[0].attr == attr and isinstance(a.value, ast.Tuple) and len(a.value.elts) == 3):
-                        def sub(n, i):
-                            return (isinstance(n, ast.Subscript) and _self_attr(n.value) == attr
-                                    and isinstance(n.slice, ast.Constant) and n.slice.value == i)
-                        e0, e1, e2 = a.value.elts
-                        if sub(e0, 0) and sub(e1, 1) and isinstance(e2, ast.ListComp):
-                            g = _one_gen(e2)
-                            r2 = m.rt_call(e2.elt)
-                            if g is not None and sub(g.iter, 2) and isinstance(g.target, ast.Name) and r2 is not None \
-                                    and _same(r2, g.target):
-                                out.append(attr)
-                                ok = True
-                if not ok:
-                    raise ExtractError("%s: unrecognised statement: %s" % (where, ast.unparse(st)[:200]))
+                st2 = _Ren().visit(ast.parse(ast.unparse(st)).body[0])     # the copy is the object being rebuilt
+                for s_ in _stmt_effect(m, st2):
+                    if s_ in out:
+                        raise ExtractError("%s: slot %s assigned twice" % (where, s_))
+                    out.append(s_)
             return out
     # the @builder form: independent self.<slot> assignments (any order)
     if _decorators(fn) != ["builder"]:
@@ -446,7 +481,7 @@ def _samples():
     import pypika.enums as E
     from pypika import Query, Table, functions as fn
     from pypika.queries import Join, JoinOn, JoinUsing, QueryBuilder
-    from pypika.dialects import ClickHouseQuery
+    from pypika.dialects import ClickHouseQuery, PostgreSQLQuery, MySQLQuery
 
     def A():
         return Table("a")            # a fresh, equal-but-not-identical object each time (defeats an `is` comparison)
@@ -456,7 +491,7 @@ def _samples():
     def f(slot, s):                  # a field on A if this is the probed slot (or all slots), else on C
         return T.Field("x_" + s.strip("_"), table=A() if slot in (s, None) else C)
 
-    def sample_query(base, slot, clickhouse=False):
+    def sample_query(base, slot, clickhouse=False, kind=None):
         # every element is a bare Field, so that a probe depends only on Field and on the class under test
         fa = lambda s: f(slot, s)    # noqa: E731
         Z = Table("z")
@@ -482,7 +517,24 @@ def _samples():
         q._columns = [fa("_columns")]
         q._values = [[fa("_values")]]
         q._updates = [(T.Field("u"), fa("_updates"))]
+        # dialect slots, set directly (their builder calls validate against FROM)
+        if clickhouse or kind == "pg":
+            q._distinct_on = [fa("_distinct_on")]
+        if kind == "pg":
+            q._returns = [fa("_returns")]
+            q._using = [A() if slot in ("_using", None) else C]
+            q._on_conflict_fields = [fa("_on_conflict_fields")]
+            q._on_conflict_do_updates = [(T.Field("u"), fa("_on_conflict_do_updates"))]
+            q._on_conflict_wheres = fa("_on_conflict_wheres")
+            q._on_conflict_do_update_wheres = fa("_on_conflict_do_update_wheres")
+        if kind == "mysql":
+            q._duplicate_updates = [(T.Field("u"), fa("_duplicate_updates"))]
         return q
+
+    def setop(slot):
+        from pypika import Query as Q_
+        u = Q_.from_(C).select(f(slot, "base_query")).union(Q_.from_(C).select(f(slot, "_set_operation")))
+        return u.orderby(f(slot, "_orderbys"))
 
     def agg(slot, cls=T.AggregateFunction):
         return cls("SUM", f(slot, "args")).filter(f(slot, "_filters"))
@@ -517,7 +569,10 @@ def _samples():
         "KAgg": agg, "KAnalytic": analytic,
         "KExtract": extract_,
         "KExists": lambda s: T.ExistsCriterion(sub(s, "container")),
+        "KAtTz": lambda s: T.AtTimezone(f(s, "field"), "UTC"), "KSetOp": setop,
         "KQuery": lambda s: sample_query(Query, s), "KClickHouse": lambda s: sample_query(ClickHouseQuery, s, True),
+        "KPostgres": lambda s: sample_query(PostgreSQLQuery, s, kind="pg"),
+        "KMySQL": lambda s: sample_query(MySQLQuery, s, kind="mysql"),
         "KJoin": lambda s: Join(A() if s in ("item", None) else C, E.JoinType.cross),
         "KJoinOn": lambda s: JoinOn(A() if s in ("item", None) else C, E.JoinType.inner, f(s, "criterion")),
         "KJoinUsing": lambda s: JoinUsing(A() if s in ("item", None) else C, E.JoinType.inner, [f(s, "fields")]),
@@ -572,6 +627,7 @@ def has_method(cls):
 def extract_table():
     from pypika.queries import AliasedQuery, Table
     MODES.clear()
+    del SHADOWED[:]
     visited = {}
     notes = []
     for ctor, mod, name in CLASSES:
@@ -598,7 +654,7 @@ def extract_table():
         for s in SLOTS[ctor]:
             got = dynamic_probe(ctor, s)
             static = s in visited[ctor]
-            if ctor in ("KQuery", "KClickHouse") and s == "_with" and MODES.get(("QueryBuilder", "_with")) == "call":
+            if ctor in ("KQuery", "KClickHouse", "KPostgres", "KMySQL") and s == "_with" and MODES.get(("QueryBuilder", "_with")) == "call":
                 exp = "TypeError" if static else "kept"       # AliasedQuery has no replace_table: calling it raises
             elif ctor == "KJoin" and s == "item" and MODES.get(("Join", "item")) == "call":
                 exp = "TypeError" if static else "kept"       # Table has no replace_table
@@ -689,13 +745,14 @@ def render_table(visited, notes):
         if MODES.get((o_, "item"), "cmp") == "call":
             raise ExtractError("%s.item handled by a method call: not a form the model knows" % o_)
     out.append("Definition src_mode (k : ctor) : srcmode := match k with")
-    out.append("  | KQuery | KClickHouse => %s" % mm[fm])
+    out.append("  | KQuery | KClickHouse | KPostgres | KMySQL => %s" % mm[fm])
     out.append("  | KJoin => %s" % mm[MODES.get(("Join", "item"), "cmp")])
     out.append("  | KJoinOn => %s" % mm[MODES.get(("JoinOn", "item"), "cmp")])
     out.append("  | KJoinUsing => %s" % mm[MODES.get(("JoinUsing", "item"), "cmp")])
     out.append("  | _ => MCmp")
     out.append("  end.")
     out.append("(*")
+    out += ["  SHADOWED: " + n.replace("*)", "* )") for n in SHADOWED]
     out += ["  " + n for n in notes]
     out.append("*)")
     return "\n".join(out) + "\n"
